@@ -475,7 +475,14 @@ static void run_request(int gen, double const in[7], vf_rng *r)
         else if (p1 == p0) { VF_COUNT("trap.outside.zero-distance"); }
         else if (!((p1 > p0 ? ac : -ac) > 0 && (p1 > p0 ? de : -de) < 0)) { VF_COUNT("trap.outside.acceleration-sign-vs-direction"); }
         else if (!(fabs(v0) <= vm && fabs(v1) <= vm)) { VF_COUNT("trap.outside.boundary-velocity-above-vm"); }
-        else if (!(ret > 0 && isfinite(ret))) { VF_COUNT("trap.outside.generator-declined(duration<=0)"); }
+        else if (!(ret > 0 && isfinite(ret)))
+        {
+            /* in the request domain, but the generator reports no positive duration: the property is silent; the
+               split by direction makes a one-sided refusal visible in the evidence */
+            VF_COUNT("trap.outside.generator-declined(duration<=0)");
+            if (p1 > p0) { VF_COUNT("trap.outside.generator-declined.forward"); }
+            else { VF_COUNT("trap.outside.generator-declined.reversed"); }
+        }
         else { ok = 1; }
         if (!ok) { exercise_unjudged(0, q.tt, ret); goto done; }
         {
@@ -511,7 +518,12 @@ static void run_request(int gen, double const in[7], vf_rng *r)
         if (!all_finite(in) || !(jm > 0 && am > 0 && vm > 0)) { VF_COUNT("bell.outside.limit-not-positive-finite"); }
         else if (!(fabs(v0) <= vm && fabs(v1) <= vm)) { VF_COUNT("bell.outside.boundary-velocity-above-vm"); }
         else if (!bell_feasible(jm, am, p0, p1, v0, v1)) { VF_COUNT("bell.outside.infeasible(Biagiotti-Melchiorri)"); }
-        else if (!(ret > 0 && isfinite(ret))) { VF_COUNT("bell.outside.generator-declined(duration<=0)"); }
+        else if (!(ret > 0 && isfinite(ret)))
+        {
+            VF_COUNT("bell.outside.generator-declined(duration<=0)");
+            if (p0 > p1) { VF_COUNT("bell.outside.generator-declined.reversed"); }
+            else { VF_COUNT("bell.outside.generator-declined.forward"); }
+        }
         else { ok = 1; }
         if (!ok) { exercise_unjudged(1, q.tb, ret); goto done; }
         {
@@ -628,18 +640,21 @@ static void run_request(int gen, double const in[7], vf_rng *r)
     vf_distinct(vf_hash64(vf_hash64(vf_hash64(vf_hash64(14, (uint64_t)gen), (uint64_t)q.branch), (uint64_t)(q.dir + 1)), q.limits));
     if (!vf.case_viol && !(seen_sample >> (gen * 8 + q.branch) & 1) && vf_want_sample())
     {
-        char rq[640];
+        char rq[200];
+        double const *v = q.in;
         seen_sample |= 1ull << (gen * 8 + q.branch);
+        snprintf(rq, sizeof(rq), gen ? "a_trajbell_gen(jm=%.9g am=%.9g vm=%.9g p0=%.9g p1=%.9g v0=%.9g v1=%.9g)" : "a_trajtrap_gen(vm=%.9g ac=%.9g de=%.9g p0=%.9g p1=%.9g v0=%.9g v1=%.9g)",
+                 v[0], v[1], v[2], v[3], v[4], v[5], v[6]);
         if (gen == 0)
         {
-            vf_sample("%s -> T=%.9g branch=%s ta=%.6g td=%.6g vc=%.6g v1=%.6g; tol_p=%.3g tol_v=%.3g (dt=%.3g): phases, start/end, hold, continuity at 4 boundaries, |v|<=vm at %d instants: ok",
-                      req_text(&q, rq, 330), q.T, branch_name[0][q.branch], q.tt->ta, q.tt->td, q.tt->vc, q.tt->v1, q.C * q.up, q.C * q.uv, q.dt, N_UNIFORM + N_RANDOM + 13);
+            vf_sample("%s -> T=%.9g branch=%s ta=%.6g td=%.6g vc=%.6g v1=%.6g; tol p=%.3g v=%.3g (dt=%.2g); phase times, start/end, hold, continuity at 4 boundaries, |v|<=vm at %d instants: ok",
+                      rq, q.T, branch_name[0][q.branch], q.tt->ta, q.tt->td, q.tt->vc, q.tt->v1, q.C * q.up, q.C * q.uv, q.dt, N_UNIFORM + N_RANDOM + 13);
         }
         else
         {
-            vf_sample("%s -> T=%.9g branch=%s ta=%.6g tv=%.6g td=%.6g taj=%.4g tdj=%.4g vpeak=%.6g am=%.4g dm=%.4g; tol_p=%.3g tol_v=%.3g tol_a=%.3g (dt=%.3g): all clauses ok",
-                      req_text(&q, rq, 250), q.T, branch_name[1][q.branch], q.tb->ta, q.tb->tv, q.tb->td, q.tb->taj, q.tb->tdj, q.tb->vm, q.tb->am, q.tb->dm,
-                      q.C * q.up, q.C * q.uv, q.C * q.ua, q.dt);
+            vf_sample("%s -> T=%.9g branch=%s ta=%.6g tv=%.6g td=%.6g taj=%.4g tdj=%.4g vpeak=%.6g am=%.4g dm=%.4g; tol p=%.3g v=%.3g a=%.3g (dt=%.2g); all clauses at 9 boundaries + %d instants: ok",
+                      rq, q.T, branch_name[1][q.branch], q.tb->ta, q.tb->tv, q.tb->td, q.tb->taj, q.tb->tdj, q.tb->vm, q.tb->am, q.tb->dm,
+                      q.C * q.up, q.C * q.uv, q.C * q.ua, q.dt, N_UNIFORM + N_RANDOM + 23);
         }
     }
 done:
